@@ -908,8 +908,24 @@ func (p *bprover) sliceObl(x *ssa.Slice, b *ssa.BasicBlock) boundObl {
 			}
 		}
 	} else if !p.prove(upper.sub(hi), facts, 0) {
-		ok = false
-		parts = append(parts, "cannot prove high <= len ("+upper.sub(hi).String()+" >= 0)")
+		// the sliced value is a merge of two slices (`if short > 0 { hb = append(hb, …) }; hb[:n]`):
+		// case split over the incoming values, each with the facts of its edge
+		split := false
+		if ph, isPhi := stripConv(x.X).(*ssa.Phi); isPhi && len(ph.Edges) > 0 {
+			split = true
+			for i, ev := range ph.Edges {
+				pred := ph.Block().Preds[i]
+				ef := p.edgeFacts(pred, ph.Block())
+				u := p.lenOf(ev, pred)
+				if !p.prove(u.sub(hi), append(ef, facts...), 0) {
+					split = false
+				}
+			}
+		}
+		if !split {
+			ok = false
+			parts = append(parts, "cannot prove high <= len ("+upper.sub(hi).String()+" >= 0)")
+		}
 	}
 	return boundObl{x, desc, ok, strings.Join(parts, "; ")}
 }
